@@ -32,7 +32,7 @@ ASSUMPTIONS = ["'committed' = a version the pointer named after a call that retu
 REQUIRED_LABELS = {"quick": ["orphan-higher-than-committed", "damage:stale", "damage:deleted", "action:create_table", "versions>=10"], "thorough": ["orphan-higher-than-committed"]}
 
 DAMAGES = ["deleted", "empty", "whitespace", "random", "invalid_utf8", "digits_missing", "digits_lower", "digits_huge", "legacy_name", "legacy_lower", "missing_file", "stale",
-           "orphan", "current_lf", "current_crlf", "current_spaces", "path_sep", "dotdot", "long_garbage", "digits_unicode", "digits_5000", "name_5000"]
+           "orphan", "current_lf", "current_crlf", "current_spaces", "path_sep", "dotdot", "long_garbage", "digits_unicode", "digits_5000", "name_5000", "digits_n", "name_n", "legacy_name_n"]
 ACTIONS = ["load_table", "create_table", "append", "append_then_lose_pointer", "scan", "gc", "open_during_commit"]
 
 
@@ -49,9 +49,13 @@ def case_strategy(draw):
         # a storage READ error while the damaged table is being opened (one-shot or persisting for that call)
         fault = {"method": draw(st.sampled_from(FAULT_METHODS)), "nth": draw(st.integers(1, 4)), "sticky": draw(st.booleans())}
     return {"kind": "pointer", "steps": steps, "damage": draw(st.sampled_from(DAMAGES)), "action": draw(st.sampled_from(ACTIONS)),
-            "rnd": draw(st.binary(min_size=1, max_size=12)), "stale_idx": draw(st.integers(0, 6)), "fault": fault}
+            "rnd": draw(st.binary(min_size=1, max_size=12)), "stale_idx": draw(st.integers(0, 6)), "fault": fault,
+            "ndig": draw(st.one_of(st.sampled_from(NDIG), st.integers(2, 4400)))}
 
 
+# lengths of an all-digit version field: around the int64 width, the file-name limit (255 bytes incl. prefix/suffix), the path limit and the
+# interpreter's integer-string conversion limit (4300)
+NDIG = [19, 20, 40, 230, 241, 242, 250, 254, 255, 256, 300, 1000, 4000, 4096, 4299, 4300, 4301]
 FAULT_METHODS = ["list_files", "list_files", "read_file", "exists", "get_modified_time"]
 
 
@@ -179,6 +183,12 @@ def check_case(case):
             open(hint, "wb").write(b"7" * 5000)  # beyond the interpreter's integer-string conversion limit
         elif dmg == "name_5000":
             open(hint, "wb").write(b"v" + b"7" * 5000 + b"-deadbeef.metadata.json")
+        elif dmg == "digits_n":
+            open(hint, "wb").write(b"3" * case.get("ndig", 300))
+        elif dmg == "name_n":
+            open(hint, "wb").write(b"v" + b"3" * case.get("ndig", 300) + b"-deadbeef.metadata.json")
+        elif dmg == "legacy_name_n":
+            open(hint, "wb").write(b"v" + b"3" * case.get("ndig", 300) + b".metadata.json")
         out["nontrivial"] = bool(higher) or wrong_existing
 
         # classification of the root cause if something goes wrong (for bucketing only)
